@@ -86,3 +86,96 @@ class WriterToList(Contract):
         return [Case("fields", [s, addc], post, pre=[npos >= 0, ntag >= 0, npos < 4000], zh=h0, heap=heap, invariants=inv, models=models,
                      options=dict(alloc_lists=True, opaque_elems=True), symbols=dict(n_positional=npos, n_tags=ntag, virtual=virtual, add_virtual_commentary=addc, record_type_fails=rt_fails),
                      replay=lambda w: {"target": "bounded.replay_helpers:writer_cases"}, confirm=battery_confirm)]
+
+
+class _DataGet:
+    """self._data: `in` and `.get` for the one field under consideration"""
+    def __init__(self, has, value):
+        self.has, self.value = has, value
+
+    def pyvc_contains(self, E, x):
+        return self.has
+
+    def pyvc_attr(self, E, attr, st):
+        if attr != "get":
+            raise Unsupported("_data.%s" % attr)
+        me = self
+        class G:
+            def pyvc_call(self, E, pos, kw, st):
+                yield ("val", me.value, st)
+        yield ("val", G(), st)
+
+
+@register
+class FieldToS(Contract):
+    fn = "gfapy/line/common/writer.py::Writer.field_to_s"
+    props = ("C18", "C20", "C01")
+    doc = ("field_to_s: a field without value raises NotFoundError; a value that is not text is encoded with the datatype of the field; at "
+           "validation level >= 2 the TEXT that is written has been validated, whatever the value was (text kept from parsing, or a decoded "
+           "value that has just been encoded: the encoders accept values whose text the datatype refuses); only gfapy errors are raised")
+
+    def cases(self, ctx):
+        g = ctx.gfapy
+        vlevel = z3.Int("vlevel")
+        has, is_none, is_text = z3.Bool("field_in_data"), z3.Bool("value_is_None"), z3.Bool("value_is_text")
+        enc_fails, text_valid = z3.Bool("encoder_refuses_value"), z3.Bool("written_text_is_valid")
+        as_tag = z3.Bool("tag")
+        s = Obj(g.Line, "line")
+        class Val:
+            """the stored value (text or decoded) / the text obtained from it"""
+            def __init__(self, kind):
+                self.kind = kind
+        stored, encoded, tagtext = Val("stored"), Val("encoded"), Val("tag")
+        value = Opt(is_none, stored)
+        class _Get:
+            def pyvc_call(self, E, pos, kw, st):
+                yield ("val", pos[1], st)               # no alias for the field under consideration: FIELD_ALIAS.get(name, name) = name
+        class _Alias:
+            def pyvc_attr(self, E, attr, st):
+                if attr != "get":
+                    raise Unsupported("FIELD_ALIAS.%s" % attr)
+                yield ("val", _Get(), st)
+        class _Cls:
+            def pyvc_attr(self, E, attr, st):
+                if attr != "FIELD_ALIAS":
+                    raise Unsupported("class attribute %s" % attr)
+                yield ("val", _Alias(), st)
+        heap = {s.oid: {"_data": _DataGet(has, value), "vlevel": vlevel, "__class__": _Cls()}}
+        def m_isinstance(E, st, pos, kw):
+            x, cls = pos
+            x = x.val if isinstance(x, Opt) else x
+            if x is stored and cls is str:
+                yield ("val", is_text, [])
+            else:
+                raise Unsupported("isinstance(%r, %r)" % (x, cls))
+        def m_encode(E, st, pos, kw):
+            yield ("raise", Exc(g.FormatError), [enc_fails])
+            yield ("val", encoded, [z3.Not(enc_fails)])
+        def m_validate(E, st, pos, kw):
+            x = pos[0].val if isinstance(pos[0], Opt) else pos[0]
+            yield ("raise", Exc(g.FormatError), [z3.Not(text_valid)], st.with_ghost("validated", x.kind))
+            yield ("val", None, [text_valid], st.with_ghost("validated", x.kind))
+        def m_tag(E, st, pos, kw):
+            x = pos[0].val if isinstance(pos[0], Opt) else pos[0]
+            yield ("val", tagtext, [], st.with_ghost("tagged", x.kind))
+        models = {builtins.isinstance: m_isinstance,
+                  ctx.fn("gfapy/field/writer.py::Writer._to_gfa_field"): m_encode,
+                  ctx.fn("gfapy/field/validator.py::Validator._validate_gfa_field"): m_validate,
+                  ctx.fn("gfapy/field/writer.py::Writer._to_gfa_tag"): m_tag,
+                  ctx.fn("gfapy/line/common/field_datatype.py::FieldDatatype._field_or_default_datatype"): const_model(lambda *a: Unknown("datatype"))}
+        def post(kd, v, st):
+            if kd == "raise":
+                return z3.And(z3.BoolVal(issubclass(v.cls, g.Error)),
+                              z3.Or(z3.And(z3.BoolVal(v.cls is g.NotFoundError), is_none),
+                                    z3.And(z3.Not(is_none), z3.Not(is_text), enc_fails),
+                                    z3.And(z3.Not(is_none), vlevel >= 2, z3.Not(text_valid))))
+            v = v.val if isinstance(v, Opt) else v
+            written = "stored" if v is stored else "encoded" if v is encoded else st.ghost.get("tagged")
+            validated = st.ghost.get("validated")
+            return z3.And(z3.Not(is_none),
+                          z3.BoolVal(written == "stored") == is_text,                                   # text is written as it is, anything else encoded
+                          z3.Implies(vlevel >= 2, z3.And(z3.BoolVal(validated == written), text_valid)),     # C18: what is written at level >= 2 was validated
+                          z3.BoolVal((v is tagtext)) == as_tag)
+        return [Case("field", [s, "xx", as_tag], post, pre=[vlevel >= 0, vlevel <= 3, z3.Implies(is_none, z3.Not(is_text)), z3.Implies(z3.Not(has), is_none)], heap=heap, models=models,
+                     symbols=dict(vlevel=vlevel, value_is_None=is_none, value_is_text=is_text, encoder_refuses_value=enc_fails, written_text_is_valid=text_valid, tag=as_tag),
+                     minimize=[vlevel], replay=lambda w: {"target": "bounded.replay_helpers:field_to_s_cases"}, confirm=battery_confirm)]
